@@ -68,6 +68,21 @@ int main(int argc, char** argv) {
     T_II(_mm256_add_epi64) T_II(_mm256_sub_epi64) T_II(_mm256_add_epi32) T_II(_mm256_mul_epu32) T_II(_mm256_mul_epi32) T_II(_mm256_and_si256) T_II(_mm256_or_si256) T_II(_mm256_xor_si256)
     T_II(_mm256_sllv_epi64) T_II(_mm256_srlv_epi64) T_II(_mm256_permutevar8x32_epi32) T_II(_mm256_unpacklo_epi32) T_II(_mm256_unpackhi_epi32)
     T_II(_mm256_unpacklo_epi64) T_II(_mm256_unpackhi_epi64)
+    T_II(_mm256_andnot_si256) T_II(_mm256_cmpeq_epi64) T_II(_mm256_cmpgt_epi64) T_II(_mm256_cmpeq_epi32) T_II(_mm256_sub_epi32)
+    { /* test / mask / select intrinsics (scalar results compared directly); operands with many equal or zero lanes so that both outcomes occur */
+      LD(__m256i, a) LD(__m256i, b) LD(__m256i, c)
+      if (it % 3 == 0) b = _mm256_andnot_si256(a, b);
+      if (it % 5 == 0) a = _mm256_setzero_si256();
+      if (it % 7 == 0) b = a;
+      CP(shim__m256i, sa, a) CP(shim__m256i, sb, b) CP(shim__m256i, sc, c)
+      if (_mm256_testz_si256(a, b) != shim_mm256_testz_si256(sa, sb)) FAIL("_mm256_testz_si256");
+      if (_mm256_testc_si256(a, b) != shim_mm256_testc_si256(sa, sb)) FAIL("_mm256_testc_si256");
+      if (_mm256_movemask_epi8(a) != shim_mm256_movemask_epi8(sa)) FAIL("_mm256_movemask_epi8");
+      __m256i r = _mm256_blendv_epi8(a, b, c); shim__m256i s = shim_mm256_blendv_epi8(sa, sb, sc); CHECK("_mm256_blendv_epi8", r, s, 0);
+      int sh = (int)(rnd() % 40);
+      r = _mm256_srli_epi32(a, sh); s = shim_mm256_srli_epi32(sa, sh); CHECK("_mm256_srli_epi32", r, s, 0);
+      r = _mm256_slli_epi32(a, sh); s = shim_mm256_slli_epi32(sa, sh); CHECK("_mm256_slli_epi32", r, s, 0);
+    }
     IMMP2(T_IIi, _mm256_permute2x128_si256)
     { /* shifts with run-time counts 0..70 and small counts for sllv/srlv */
       LD(__m256i, a) CP(shim__m256i, sa, a)
